@@ -206,3 +206,25 @@ Proof.
     assert (Hlt : Nat.ltb (s_cur s) (s_size s) = false) by (apply Nat.ltb_ge; lia).
     rewrite Hlt, andb_false_r in H. inversion H; subst. cbn. auto.
 Qed.
+
+(* a full semaphore wakes nobody *)
+Lemma notify_full fuel size wait granted : notify fuel size size wait granted = (size, wait, granted, []).
+Proof.
+  destruct fuel; destruct wait; cbn [notify]; auto. rewrite Nat.ltb_irrefl. reflexivity.
+Qed.
+
+(* FIFO hand-over: when waiters are queued, a Release hands the permit to the FIRST of them and to
+   nobody else, and the semaphore stays full *)
+Theorem sem_release_wakes_head n s w rest s' r : SReach n s -> s_wait s = w :: rest ->
+  sstep s SRelease = Some (s', r) ->
+  r = RDone [w] /\ s_wait s' = rest /\ s_granted s' = s_granted s ++ [w] /\ sfree s' = 0.
+Proof.
+  intros Hr Hw H. destruct (sreach_inv n s Hr) as [[Hc Hle Hnl Hnd] Hs].
+  assert (Hfull : s_cur s = s_size s) by (apply Hnl; rewrite Hw; discriminate).
+  cbn [sstep] in H. destruct (s_held s) as [|h]; [discriminate|].
+  destruct (s_cur s) as [|c] eqn:Hcur; [discriminate|].
+  rewrite Hw in H. cbn [length] in H. rewrite notify_cons in H.
+  assert (Hlt : Nat.ltb c (s_size s) = true) by (apply Nat.ltb_lt; lia).
+  rewrite Hlt in H. rewrite Hfull in H. rewrite notify_full in H. inversion H; subst. cbn.
+  unfold sfree. cbn. repeat split; auto. lia.
+Qed.
